@@ -282,7 +282,7 @@ def _rec_excerpt(rec: dict) -> dict:
 
 
 def _shape_matches(v: Viol, exp: dict) -> bool:
-    if exp.get("rule") and v.rule != exp["rule"]:
+    if exp.get("rule") and not re.fullmatch(exp["rule"], v.rule):
         return False
     if exp.get("where") and not re.search(exp["where"], v.where):
         return False
